@@ -14,8 +14,8 @@
 (* aggregate from the logged input).                                          *)
 EXTENDS Aggregates, TraceCommon
 
-VARIABLES exp, l
-tvars == <<vars, exp, l>>
+VARIABLES exp, written, l
+tvars == <<vars, exp, written, l>>
 
 Ln == Trace[l]
 IsEv(e) == l <= Len(Trace) /\ Ln.ev = e /\ l' = l + 1
@@ -24,13 +24,33 @@ Cfg0 == [fn |-> "count", arg |-> 0, as |-> "count", upt |-> FALSE]
 TrInit ==
     /\ cfg = Cfg0 /\ mode = "trace" /\ st = St0 /\ open = "-" /\ cur = Cur0
     /\ emitted = <<>> /\ refEmitted = <<>> /\ nb = 0
-    /\ exp = <<>> /\ l = 1 /\ HWInit
+    /\ exp = <<>> /\ written = {} /\ l = 1 /\ HWInit
 
 TrReset ==
     /\ IsEv("Reset")
     /\ cfg' = [fn |-> Ln.fn, arg |-> Ln.narg, as |-> Ln.out, upt |-> Ln.upt]
     /\ st' = St0 /\ cur' = Cur0 /\ exp' = <<>> /\ emitted' = <<>> /\ refEmitted' = <<>>
+    /\ written' = {}
     /\ UNCHANGED <<mode, open, nb>>
+
+(* window mode: the points the driver wrote to the stream task *)
+TrWritten ==
+    /\ IsEv("Written")
+    /\ written' = SeqToSet(Ln.pts)
+    /\ UNCHANGED <<vars, exp>>
+
+(* The node must not modify its input: the messages it received (sink 'in' / 'win' hold references to them) are  *)
+(* decoded after the run (field seen) and must still be what was fed; a window batch consists of written points. *)
+InputIntact(fed, what) ==
+    IF "seen" \in DOMAIN Ln /\ Ln.seen # fed
+    THEN PrintT(<<"MISMATCH", "the node modified its input", what, "fed", fed, "after the run", Ln.seen>>) /\ FALSE
+    ELSE TRUE
+FromWritten ==
+    IF written = {} THEN TRUE
+    ELSE \A j \in DOMAIN Ln.pts :
+            IF [t |-> Ln.pts[j].t, k |-> Ln.pts[j].k, v |-> Ln.pts[j].v, h |-> Ln.pts[j].h, i |-> Ln.pts[j].i, g |-> Ln.g] \in written
+            THEN TRUE
+            ELSE PrintT(<<"MISMATCH", "a point of the window batch is not a written point (input modified)", Ln.pts[j]>>) /\ FALSE
 
 RECURSIVE FoldPts(_, _, _, _)
 FoldPts(c, s, g, pts) == IF pts = <<>> THEN s ELSE FoldPts(c, PointB(c, s, g, Head(pts)).st, g, Tail(pts))
@@ -50,7 +70,8 @@ TrBatch ==
        /\ Consistent(r.outs, ref, Ln)
        /\ st' = r.st /\ emitted' = r.outs /\ refEmitted' = ref
        /\ exp' = exp \o r.outs
-    /\ UNCHANGED <<cfg, mode, open, cur, nb>>
+    /\ InputIntact(Ln.pts, "batch") /\ FromWritten
+    /\ UNCHANGED <<cfg, mode, open, cur, nb, written>>
 
 (* stream mode: cur keeps the current run and the group history exactly as   *)
 (* in the exhaustive model (SPoint)                                           *)
@@ -70,7 +91,8 @@ TrPoint ==
        /\ exp' = exp \o r.outs
        /\ cur' = [cur EXCEPT ![g] = [t |-> p.t, pts |-> Append(run, p),
                                      all |-> IF cfg.fn \in Trans THEN Append(c.all, p) ELSE <<>>, adv |-> 0, n |-> c.n + 1]]
-    /\ UNCHANGED <<cfg, mode, open, nb>>
+    /\ InputIntact([t |-> Ln.t, k |-> Ln.k, v |-> Ln.v, h |-> Ln.h, i |-> Ln.i, g |-> Ln.g], "point")
+    /\ UNCHANGED <<cfg, mode, open, nb, written>>
 
 Expected == SelectSeq(exp, LAMBDA x : ExpN(cfg, x) = 1)
 
@@ -92,9 +114,9 @@ TrDrain ==
     /\ IsEv("Drain")
     /\ DrainOK
     /\ DriftNote
-    /\ UNCHANGED <<vars, exp>>
+    /\ UNCHANGED <<vars, exp, written>>
 
-TrNext == TrReset \/ TrBatch \/ TrPoint \/ TrDrain
+TrNext == TrReset \/ TrWritten \/ TrBatch \/ TrPoint \/ TrDrain
 TrSpec == TrInit /\ [][TrNext]_tvars
 
 TrTypeOK ==
